@@ -1797,6 +1797,8 @@ def loadArmFromURDF(file_name):
             completeLinkParse(new_element, child)
         elif new_element.type == 'joint':
             new_element.sub_type = child.get('type')
+            new_element.axis = np.array([1.0, 0.0, 0.0])
+            new_element.xyz_origin = tm()
             completeJointParse(new_element, child)
         elements.append(new_element)
 
